@@ -1,7 +1,7 @@
 #!/bin/bash
 # usage: tools/mutcheck.sh <patch.diff> <property id> [tier]   -- apply a seeded change to /repo, run the check, undo
 set -u
-P="$1"; ID="$2"; TIER="${3:-quick}"
+P="$(realpath "$1")"; ID="$2"; TIER="${3:-quick}"
 cd /repo || exit 9
 if [ -n "$(git status --porcelain --untracked-files=no)" ]; then echo "repo dirty"; exit 9; fi
 if ! git apply "$P" 2>/dev/null; then
